@@ -195,10 +195,17 @@ func Run(prop, tier string) int {
 		complete = false
 		caps = append(caps, "development run restricted to scenarios "+only)
 	}
+	// C13 also: the names of the files the service creates, under every interleaving of concurrent callers (E6)
+	fnCov := exploreFilenames(reps["C13"], tier)
 	code := 0
 	for _, p := range Props {
 		r := reps[p]
 		cv := r.Coverage
+		if p == "C13" {
+			for k, v := range fnCov {
+				cv[k] = v
+			}
+		}
 		cv["states"] = states
 		cv["transitions"] = trans
 		cv["traces_validated_against_impl"] = trans
